@@ -605,7 +605,7 @@ func cmdCheck(args []string) int {
 	for k, v := range spec.Stubs {
 		w.Stubs[strings.ReplaceAll(k, "akita/", modulePath+"/")] = v
 	}
-	for _, p := range append([]string{"errors", "io", "io/fs", "strconv", "unicode/utf8", "math", "sort", "container/list", "encoding/binary", "net", "unicode", "internal/bytealg", "syscall", "time", "os"}, spec.InitStd...) {
+	for _, p := range append([]string{"errors", "io", "io/fs", "strconv", "unicode/utf8", "math", "sort", "container/list", "encoding/binary", "net", "net/netip", "unicode", "internal/bytealg", "syscall", "time", "os"}, spec.InitStd...) {
 		w.InitStd[p] = true
 	}
 	// only harmless ones by default
